@@ -56,6 +56,8 @@ def gen(t):
     a('w_angle', '%s& o, const %s& q' % (E, Q), 'o = q.angle();')
     a('w_explog', '%s& o, const %s& q' % (Q, Q), 'o = q.log().exp();')
     a('w_slerp', '%s& o, const %s& p, const %s& q, const %s& tt' % (Q, Q, Q, E), 'o = slerp(p, q, tt);')
+    a('w_exp', '%s& o, const %s& q' % (Q, Q), 'o = q.exp();')
+    a('w_log', '%s& o, const %s& q' % (Q, Q), 'o = q.log();')
     return tu
 
 def gen_sinc(t):
@@ -484,6 +486,29 @@ def main(rep, ws, tier):
                     return ('component %d of exp(log q) is %s, not that of q (unit q, |r| < 1)' % (i, P.show_rat(r, ctx)[:200]), None, fn_where(S.fn))
             return (None, 'exp(log q) reproduces every unit q with |r| < 1 (inverse trigonometric function composed with sin / cos; |q| = 1)', fn_where(S.fn))
         ob('exp(log q)', 'R10.explog', explog)
+
+        def explog_identity():
+            """the end of the range the generic cell leaves out: at q = identity the angle is exactly zero, log returns the zero
+            quaternion and exp of a zero vector part returns (1,0,0,0) - the value graphs folded at that point (constant
+            propagation; sin 0 = 0, cos 0 = 1, sqrt 0 = 0, 0/0 = NaN) must give those constants, i.e. the sin(theta)/theta and
+            theta/sin(theta) quotients are not formed at theta = 0"""
+            from .c07 import _ev3
+            import math
+            n = 0
+            for wname, point, want, what in (('w_exp', {1: 0.0, 2: 0.0, 3: 0.0}, (1.0, 0.0, 0.0, 0.0), 'exp of a quaternion with zero vector part'),
+                                             ('w_log', {0: 1.0, 1: 0.0, 2: 0.0, 3: 0.0}, (0.0, 0.0, 0.0, 0.0), 'log of the identity'),
+                                             ('w_explog', {0: 1.0, 1: 0.0, 2: 0.0, 3: 0.0}, (1.0, 0.0, 0.0, 0.0), 'exp(log(identity))')):
+                S = S_(wname)
+                o = outs(S, 'a0', 4)
+                env = {agg.slot_in('a1', i, t).id: v for i, v in point.items()}
+                for i in range(4):
+                    got = _ev3(o[i], env, {})
+                    n += 1
+                    if got is None: raise PC.Undecided('%s: component %d does not fold to a constant: %s' % (what, i, T.show(o[i], 4)[:160]))
+                    if not (got == want[i]):
+                        return ('%s: component %d folds to %s, expected %g (the quotient of sin(theta) and theta is formed at theta = 0)' % (what, i, got, want[i]), None, fn_where(S.fn))
+            return (None, '%d components folded at the zero-angle point' % n, fn_where(S_('w_exp').fn))
+        ob('exp/log at the identity', 'R10.explog', explog_identity)
 
         def pivot():
             """negative-trace branch: the component computed as sqrt(...)/2 (the pivot, later the divisor 0.5/s of the
